@@ -117,7 +117,8 @@ class IdealReservoir:
             rate = (-pp[:, 2] + 4 * pp[:, 1] - 3 * pp[:, 0]) * h_inv * 0.5  # dp_dx
             cumulative = integrate.cumulative_trapezoid(rate, self.time, initial=0)
         self.recovery = cumulative * self.fvf_scale()
-        return self.recovery
+        # hand out a copy: the stored array is the cache the interpolator is built from
+        return self.recovery.copy()
 
     def recovery_factor_interpolator(self) -> Callable:
         """Generate a function to get recovery factor from time.
